@@ -82,4 +82,9 @@ CmtInv == R.kind = "cmt" =>
 \* a long piece (its YAML is larger than a mebibyte) goes through the pipe whole: 4 keys per C triad, one beat each
 BigPipeInv == R.kind = "bigpipe" =>
    /\ R.convOk /\ R.writeOk /\ R.ons = 4 * R.n /\ R.eot = 960 * R.n
+\* one line of the instances YAML longer than any line buffer (a long text, a long comment): nothing is cut; four
+\* triads with their bass, one beat each, and the text whole
+BigLineInv == R.kind = "bigline" =>
+   /\ R.convOk /\ R.writeOk /\ R.ons = 16 /\ R.eot = 4 * 960
+   /\ R.texts = (IF R.how = "text" THEN <<R.n>> ELSE <<>>)
 =============================================================================
